@@ -263,6 +263,29 @@ func jsonStructCodec[T comparable](typ string) textCodec[T] {
 	}}
 }
 
+// jsonKeyCodec round-trips the value as the key of a JSON object: encoding/json writes keys with
+// MarshalText and hands them back quoted - to UnmarshalJSON when the type has one, otherwise to
+// UnmarshalText.
+func jsonKeyCodec[T comparable](typ string) textCodec[T] {
+	one := func(b []byte, m map[T]int) (T, error) {
+		var zero T
+		if err := json.Unmarshal(b, &m); err != nil {
+			return zero, err
+		}
+		for k, v := range m {
+			if v == 1 {
+				return k, nil
+			}
+		}
+		return zero, fmt.Errorf("key lost")
+	}
+	return textCodec[T]{typ: typ + "/json-key", enc: func(v T) ([]byte, error) { return json.Marshal(map[T]int{v: 1}) }, dec: func(b []byte) (T, error) {
+		return one(b, map[T]int{})
+	}, decInto: func(b []byte, preset T) (T, error) {
+		return one(b, map[T]int{preset: 2})
+	}}
+}
+
 func inPart(i, part int) bool { return i%c16Parts == part }
 
 func f32grid(r *core.Rng, part int, f func(v float32, valid bool)) {
@@ -413,6 +436,7 @@ func c16jobs() []c16job {
 			textRT(c, itC, v, i <= 23)
 			textRT(c, jsonCodec[imagetype.ImageType]("ImageType"), v, i <= 23)
 			textRT(c, jsonStructCodec[imagetype.ImageType]("ImageType"), v, i <= 23)
+			textRT(c, jsonKeyCodec[imagetype.ImageType]("ImageType"), v, i <= 23)
 		}
 		mmT := textCodec[meta.MeteringMode]{typ: "MeteringMode/text", enc: func(v meta.MeteringMode) ([]byte, error) { return v.MarshalText() }, dec: func(b []byte) (meta.MeteringMode, error) {
 			var o meta.MeteringMode
@@ -443,10 +467,13 @@ func c16jobs() []c16job {
 			textRT(c, mmT, meta.MeteringMode(u), mmValid)
 			textRT(c, jsonCodec[meta.MeteringMode]("MeteringMode"), meta.MeteringMode(u), u <= 255)
 			textRT(c, jsonStructCodec[meta.MeteringMode]("MeteringMode"), meta.MeteringMode(u), u <= 255)
+			textRT(c, jsonKeyCodec[meta.MeteringMode]("MeteringMode"), meta.MeteringMode(u), mmValid)
 			textRT(c, emT, meta.ExposureMode(u), u <= 2)
 			textRT(c, jsonCodec[meta.ExposureMode]("ExposureMode"), meta.ExposureMode(u), u <= 2)
+			textRT(c, jsonKeyCodec[meta.ExposureMode]("ExposureMode"), meta.ExposureMode(u), u <= 2)
 			textRT(c, epT, meta.ExposureProgram(u), u <= 9)
 			textRT(c, jsonCodec[meta.ExposureProgram]("ExposureProgram"), meta.ExposureProgram(u), u <= 9)
+			textRT(c, jsonKeyCodec[meta.ExposureProgram]("ExposureProgram"), meta.ExposureProgram(u), u <= 9)
 			eb := meta.ExposureBias(int16(u))
 			textRT(c, ebT, eb, true)
 			textRT(c, jsonCodec[meta.ExposureBias]("ExposureBias"), eb, true)
@@ -498,6 +525,7 @@ func c16jobs() []c16job {
 			textRT(c, flT, meta.FocalLength(v), ok)
 			textRT(c, jsonCodec[meta.FocalLength]("FocalLength"), meta.FocalLength(v), ok)
 			textRT(c, jsonStructCodec[meta.FocalLength]("FocalLength"), meta.FocalLength(v), ok)
+			textRT(c, jsonKeyCodec[meta.FocalLength]("FocalLength"), meta.FocalLength(v), ok)
 			// ExposureTime: x.xx >= 1 is representable; below 1 only 1/n
 			textRT(c, etT, meta.ExposureTime(v), ok && v >= 1)
 			textRT(c, jsonCodec[meta.ExposureTime]("ExposureTime"), meta.ExposureTime(v), ok && v >= 1)
@@ -548,6 +576,7 @@ func c16jobs() []c16job {
 			textRT(c, uB, u, true)
 			textRT(c, jsonCodec[meta.UUID]("UUID"), u, true)
 			textRT(c, jsonStructCodec[meta.UUID]("UUID"), u, true)
+			textRT(c, jsonKeyCodec[meta.UUID]("UUID"), u, true)
 			canonS := u.String()
 			hashS := strings.ReplaceAll(canonS, "-", "")
 			for _, f := range []string{canonS, hashS, "{" + canonS + "}", "{" + hashS + "}", "urn:uuid:" + canonS, "urn:uuid:" + hashS} {
